@@ -53,6 +53,27 @@ CHECKS = {
                   "create_schedule (general zones: C11), CPython primitives as modelled. Known finding F8 (lenient clock strings) excluded by class.",
              tech="Lean 4 proof (symbolic-layout reflection + encoder laws) + differential correspondence + Spec judge",
              ref="§7 C02"),
+ "C03": dict(text="Lean theorems: every operation is `_login` first and its first frame is the reference login frame of ITS OWN clock "
+                  "reading with key (type 1) / device id (type 2) (starts_with_login, first_frame_is_login); at most 2 frames per "
+                  "simple operation and 4 for thermostat control for every device behaviour (induction over the interaction tree); "
+                  "command frames are the reference frames of that very login's session id (C02); `locality`/`no_leak`: for EVERY "
+                  "schedule of ANY number of instances an instance's behaviour is its own sequential run (induction over the schedule). "
+                  "PARTIAL: that the Python objects share nothing is checked by correspondence on histories (all ordered pairs of the 15 "
+                  "operation kinds, sequences to length 20 with fresh session ids and an advancing clock, two instances under forced "
+                  "interleavings); the asyncio scheduler itself is not modelled.",
+             note="Trusted: Lean kernel (propext, Classical.choice, Quot.sound); deterministic scheduler on in-memory streams in place "
+                  "of real reply delays; same-instance concurrency is outside the property.",
+             tech="Lean 4 proof (interaction trees, induction over schedules) + history correspondence with forced interleavings",
+             ref="§7 C03"),
+ "C09": dict(text="Lean theorems for EVERY byte string at every step: state queries return a parsed response or RuntimeError and nothing "
+                  "else (parsers shown to fail only with KeyError/ValueError, which the API layer converts; the query frame can be built "
+                  "after ANY login reply); successful iff reply non-empty; an empty login reply makes state queries and all type-2 "
+                  "operations raise RuntimeError with only the login frame written. Fault enumeration on the real API: every operation "
+                  "x every step x {empty, every prefix, random 1..1024 bytes, corrupted fields} compared with the model and judged by Spec.c09ok.",
+             note="Trusted: Lean kernel (propext, Classical.choice, Quot.sound), CPython exception classes of int()/dict lookup/decode/"
+                  "datetime.time as modelled (validated by the fault streams), scripted reader.",
+             tech="Lean 4 proof (totality of parsers for all byte strings) + fault enumeration correspondence + Spec judge",
+             ref="§7 C09"),
 }
 NOT_YET = "check not built yet in this revision (work in progress; see DESIGN.md Appendix B)"
 m = {
